@@ -4,6 +4,7 @@ import BlobfinderModel.Model.Fullmatch
 import BlobfinderModel.Model.Tumble
 import BlobfinderModel.Proofs.FastExact
 import BlobfinderModel.Proofs.AngleCheck
+import BlobfinderModel.Proofs.Fom
 /-!
 # C12 — full matching partitions the peaks and returns self-consistent matches  (partial)
 
@@ -362,5 +363,34 @@ theorem check_length_bridge (v1 v2 lo hi : ℝ) (hlo : 0 ≤ lo) (hhi : 0 ≤ hi
     (lo ≤ Real.sqrt (v1 ^ 2 + v2 ^ 2) ∧ Real.sqrt (v1 ^ 2 + v2 ^ 2) ≤ hi) ↔
       (lo ^ 2 ≤ v1 ^ 2 + v2 ^ 2 ∧ v1 ^ 2 + v2 ^ 2 ≤ hi ^ 2) :=
   length_check_iff v1 v2 lo hi hlo hhi
+
+/-! ### the ranking of candidate matches (`fom`, real numbers) and the clause "the first match contains all lattice points" -/
+
+/-- **the figure of merit as written is `(Σ elevations)² |det(a, b)| / (‖a‖² + ‖b‖²)`** -- the product of the point term, the
+orthogonality term `|sin|` and the equal-length term of `Gen.fom_body`, with `np.linalg.norm` a square root -/
+theorem fom_ranking_closed_form (S a0 a1 b0 b1 : ℝ) (ha : 0 < a0 * a0 + a1 * a1) (hb : 0 < b0 * b0 + b1 * b1) :
+    fomWritten S a0 a1 b0 b1 = S ^ 2 * |a0 * b1 - a1 * b0| / (a0 * a0 + a1 * a1 + (b0 * b0 + b1 * b1)) :=
+  fom_closed S a0 a1 b0 b1 ha hb
+
+/-- **a full lattice outranks its index-2 sublattice along `a`** whenever the peaks of the sublattice carry at most `1/√2` of
+the total elevation (`2 s² ≤ S²`), whatever the lengths of `a` and `b`: the equal-length term gains at most a factor 2.  With
+uniform elevations a complete block of three (or five) columns has `s/S = 2/3` (`3/5`): the first match is the full lattice. -/
+theorem full_lattice_outranks_sublattice (S s a0 a1 b0 b1 : ℝ) (ha : 0 < a0 * a0 + a1 * a1)
+    (hb : 0 < b0 * b0 + b1 * b1) (hs : 2 * s ^ 2 ≤ S ^ 2) :
+    fomWritten s (2 * a0) (2 * a1) b0 b1 ≤ fomWritten S a0 a1 b0 b1 := by
+  have ha2 : 0 < 2 * a0 * (2 * a0) + 2 * a1 * (2 * a1) := by nlinarith
+  rw [fom_closed s (2 * a0) (2 * a1) b0 b1 ha2 hb, fom_closed S a0 a1 b0 b1 ha hb]
+  exact fom_full_ge_sublattice S s a0 a1 b0 b1 ha hb hs
+
+/-- non-vacuity (uniform elevations, 6 of 9 and 6 of 10 peaks) -/
+example : 2 * (6 : ℝ) ^ 2 ≤ 9 ^ 2 ∧ 2 * (6 : ℝ) ^ 2 ≤ 10 ^ 2 := by norm_num
+
+/-- **the bound is sharp in kind (known finding D20)**: with `a = (7, 2)`, `b = (-9, 33)` and elevations of which the even
+columns hold 17.3 of 18.9, the documented figure of merit of the sublattice `(2a, b)` exceeds that of the full lattice -- the
+first match is then not the full lattice although the lattice is noise-free -/
+theorem sublattice_outranks_witness :
+    fomClosed (189 / 10) 7 2 (-9) 33 < fomClosed (173 / 10) 14 4 (-9) 33 := by
+  unfold fomClosed
+  norm_num [abs_of_pos]
 
 end C12
